@@ -45,7 +45,7 @@ def run(ctx):
         runs.append(run_stream(ctx, exe, hx, srv, "main", ["c25", "--seed", str(ctx.seed), "--n", str(n), "--len", str(ln)]))
     # the classification table of the 18 query kinds as the model has it (also exercised through the probes)
     kinds = driver_query(exe, ["server kinds"])
-    failures, dis, stats = [], [], []
+    failures, dis, stats = [], tier_a(exe), []
     for r in runs:
         failures += oracle_failures(r["oracle"])
         dis += diff_server(r, r["oracle"])
